@@ -74,7 +74,8 @@ CHECKS = {
         "quick": [{"test": "TestC10", "checks": 300, "shards": 5}, {"test": "TestC10Hostile", "checks": 4000, "shards": 4},
                   {"test": "TestC10Big", "checks": 3, "shards": 2}],
         "thorough": [{"test": "TestC10", "checks": 15000, "shards": 8}, {"test": "TestC10Hostile", "checks": 250000, "shards": 6},
-                     {"test": "TestC10Big", "checks": 60, "shards": 2}],
+                     {"test": "TestC10Big", "checks": 60, "shards": 2},
+                     {"kind": "fuzz", "test": "FuzzImporter", "fuzztime": "180s"}],
     },
     "C11": {
         "level": "exploration",
